@@ -1919,6 +1919,7 @@ def run_same_code(spec):
     ws = [wrap(stack, f, decos) if stack else f for f in fs]
     what = stack_text(stack)
     inspected, unfilled_later, seen_fns = [], False, []
+    earlier = [[] for _ in range(nf)]          # per function: the results of its earlier calls (cached stacks only use them)
     for fn, kind, args, kwargs in ops:
         f, w, sj = fs[fn], ws[fn], sigs[fn]
         label = '%s [function %i of %i from one %s factory, defaults %s]' % (what, fn, nf, form, [build(v) for v in dvals[fn]])
@@ -1930,12 +1931,17 @@ def run_same_code(spec):
                     raise HarnessError('%s is outside the claimed domain' % nm)
             exp, callargs, nkw, ndef = expected(sj, args, kwargs)
             direct(f, sj, args, kwargs, exp)
+            # a cached function "returns the first result thereafter": when the same function was called before with the same bound arguments and only the ORDER of the
+            # undeclared keywords differed (the order is no part of the combination), the earlier result - which reports the earlier order - is the right answer as well
+            alts = [e for e in earlier[fn] if all(same(e.get(part), exp.get(part)) for part in ('p', 'va', 'vk'))] if 'cache' in stack and isinstance(exp, dict) else []
             if kind == 'bind':
-                check_binding(label, w, f, sj, args, kwargs, exp, callargs)
+                check_binding(label, w, f, sj, args, kwargs, exp, callargs, alts=alts)
             else:
                 a, k = bvals(args, kwargs)
                 r = call('%s for %s' % (label, call_text(sj, args, kwargs)), w, *a, **k)
-                check(same(r, exp), '%s for %s returned %s, f itself returns %s', label, call_text(sj, args, kwargs), r, exp)
+                check(same(r, exp) or any(same(r, e) for e in alts), '%s for %s returned %s, f itself returns %s', label, call_text(sj, args, kwargs), r, exp)
+            if isinstance(exp, dict):
+                earlier[fn].append(exp)
             if ndef and seen_fns and fn != seen_fns[0] and dvals[fn] != dvals[seen_fns[0]]:
                 unfilled_later = True
         if fn not in seen_fns:
